@@ -2,7 +2,7 @@
 import itertools
 
 from vlib.kitchen import PATTERNS, Docs
-from vlib.valuecheck import build_cases, evaluate, replay  # noqa: F401
+from vlib.valuecheck import build_cases, evaluate, replay, collide_root  # noqa: F401
 from vlib.kitchen import run_cases
 
 PROPS_FILE = "Props/C06.v"
@@ -48,6 +48,10 @@ def systematic():
                 root["$defs"] = {"Str": s}
                 root["properties"]["s"] = {"type": "array", "items": {"$ref": "#/$defs/Str"}}
             out.append(root)
+    # inline types whose Go names collide and that differ only in their string constraints
+    for a, b in (({"minLength": 3}, {"maxLength": 2}), ({"pattern": "^[a-z]+$"}, {"pattern": "^[A-Z][a-z]*$"}), ({"minLength": 1, "maxLength": 2}, {"minLength": 2, "maxLength": 4})):
+        out.append(collide_root(dict(a, type="string"), dict(b, type="string"), key="s"))
+        out.append(collide_root(dict(b, type="string"), dict(a, type="string"), key="s", required=True))
     return out
 
 
